@@ -12,6 +12,8 @@ pub struct ExIoError(std::io::Error);
 pub trait Write {
     type E;
     spec fn out(&self) -> Seq<char>;
+    // whatever else identifies the sink (its capacity, for a byte slice): never changed by writing
+    spec fn frame(&self) -> int;
 }
 // std::io::Write sinks (the `impl Write` parameter of write_jsonl; rule D4 renames it)
 pub trait IoWrite: Write<E = std::io::Error> {}
@@ -22,6 +24,7 @@ pub struct Formatter<'a> { _p: core::marker::PhantomData<&'a u8> }
 impl<'a> Write for Formatter<'a> {
     type E = std::fmt::Error;
     uninterp spec fn out(&self) -> Seq<char>;
+    open spec fn frame(&self) -> int { 0 }
 }
 impl<'a> Formatter<'a> {
     #[verifier::external_body]
@@ -89,15 +92,15 @@ impl Display for String {
 // rule R12: write!(SINK, LIT, args..) as a chain threading the Result (assumed meaning of std::fmt::write)
 #[verifier::external_body]
 pub fn vfw_start<S: Write + ?Sized>(f: &mut S) -> (r: Result<(), S::E>)
-    ensures r is Ok, final(f).out() == old(f).out()
+    ensures r is Ok, final(f).out() == old(f).out(), final(f).frame() == old(f).frame()
 { unimplemented!() }
 #[verifier::external_body]
 pub fn vfw_lit<S: Write + ?Sized>(f: &mut S, prev: Result<(), S::E>, p: Ghost<Seq<char>>) -> (r: Result<(), S::E>)
-    ensures prev is Err ==> r is Err, r is Ok ==> final(f).out() == old(f).out() + p@
+    ensures prev is Err ==> r is Err, r is Ok ==> final(f).out() == old(f).out() + p@, final(f).frame() == old(f).frame()
 { unimplemented!() }
 #[verifier::external_body]
 pub fn vfw_arg<S: Write + ?Sized, A: Display + ?Sized>(f: &mut S, prev: Result<(), S::E>, a: &A) -> (r: Result<(), S::E>)
-    ensures prev is Err ==> r is Err, r is Ok ==> final(f).out() == old(f).out() + a.shown()
+    ensures prev is Err ==> r is Err, r is Ok ==> final(f).out() == old(f).out() + a.shown(), final(f).frame() == old(f).frame()
 { unimplemented!() }
 // `{:0N}` of an i64 (assumed): the decimal form, zero-padded on the left to at least N characters
 pub uninterp spec fn pad_int(v: int, w: nat) -> Seq<char>;
@@ -108,13 +111,14 @@ pub proof fn axiom_pad_int(v: int, w: nat)
 {}
 #[verifier::external_body]
 pub fn vfw_pad<S: Write + ?Sized>(f: &mut S, prev: Result<(), S::E>, a: &i64, w: usize) -> (r: Result<(), S::E>)
-    ensures prev is Err ==> r is Err, r is Ok ==> final(f).out() == old(f).out() + pad_int(*a as int, w as nat)
+    ensures prev is Err ==> r is Err, r is Ok ==> final(f).out() == old(f).out() + pad_int(*a as int, w as nat), final(f).frame() == old(f).frame()
 { unimplemented!() }
 
 // rule R13: format!(..) builds a fresh String through the same chain (assumed: writing to a String cannot fail)
 impl Write for String {
     type E = std::fmt::Error;
     open spec fn out(&self) -> Seq<char> { self@ }
+    open spec fn frame(&self) -> int { 0 }
 }
 #[verifier::external_body]
 pub fn vs_new() -> (r: String) ensures r@ == Seq::<char>::empty() { unimplemented!() }
